@@ -1,4 +1,4 @@
 SPECIFICATION Spec
-CONSTANTS Conns = {"c1", "c2"} MaxOut = 2 MatchByPort = FALSE
+CONSTANTS Conns = {"c1", "c2"} MaxOut = 2 MatchByPort = FALSE Timeouts = 0 OneShotBuffered = TRUE
 INVARIANTS FlushSound OwnReport OnePoll Bounded
 CHECK_DEADLOCK FALSE
